@@ -1382,6 +1382,23 @@ def template_input(inputfile, dumpfile, flux=False, verbose=False):
     verbose : :class:`bool`, optional
         If ``True``, print lots of extra information.
     """
+    #
+    # RUN2D and RUN1D are set from the parameter file while this runs;
+    # put them back however this function is left.
+    #
+    orig_run2d = os.environ.get('RUN2D')
+    orig_run1d = os.environ.get('RUN1D')
+    try:
+        return _template_input(inputfile, dumpfile, flux=flux, verbose=verbose)
+    finally:
+        for name, value in (('RUN2D', orig_run2d), ('RUN1D', orig_run1d)):
+            if value is None:
+                os.environ.pop(name, None)
+            else:
+                os.environ[name] = value
+
+
+def _template_input(inputfile, dumpfile, flux=False, verbose=False):
     import pickle
     from astropy.constants import c as cspeed
     from .. import __version__ as pydl_version
